@@ -143,7 +143,7 @@ def feat_sig(f: J) -> str:
     return "/".join(parts)
 
 
-def requested_in(decoded: Any, requested: Any) -> bool:
+def requested_in(decoded: Any, requested: Any, rel: float = 1e-9) -> bool:
     """True if every value the caller supplied is found (recursively) in the decoded result."""
     if isinstance(requested, dict):
         if not isinstance(decoded, dict):
@@ -151,7 +151,7 @@ def requested_in(decoded: Any, requested: Any) -> bool:
         for k, v in requested.items():
             if v is None:
                 continue  # None means "not supplied" for odxtools
-            if k not in decoded or not requested_in(decoded[k], v):
+            if k not in decoded or not requested_in(decoded[k], v, rel):
                 return False
         return True
     if isinstance(decoded, (list, tuple)) and len(decoded) == 0 and \
@@ -160,8 +160,8 @@ def requested_in(decoded: Any, requested: Any) -> bool:
     if isinstance(requested, (list, tuple)) and not isinstance(requested, (bytes, bytearray)):
         if not isinstance(decoded, (list, tuple)) or len(decoded) != len(requested):
             return False
-        return all(requested_in(d, r) for d, r in zip(decoded, requested))
-    return refodx.values_equal(decoded, requested)
+        return all(requested_in(d, r, rel) for d, r in zip(decoded, requested))
+    return refodx.values_equal(decoded, requested, rel)
 
 
 def describe_param(ref: refodx.Ref, p: J) -> str:
@@ -226,3 +226,41 @@ def vclass(v: Any) -> str:
     if isinstance(v, (bytes, bytearray)):
         return type(v).__name__
     return type(v).__name__
+
+
+def offender_any(ref: refodx.Ref, msg: J) -> str:
+    """Coarse description of a message's make-up when no single parameter can be blamed."""
+    kinds = sorted({describe_param(ref, p).split("/")[-1] if p.get("dop") and
+                    ref.dobjs.get(p["dop"], {}).get("t") not in ("DOP", "DTCDOP")
+                    else p["p"] for p in msg["params"]})
+    return "+".join(kinds)
+
+
+def mask_class(ref: refodx.Ref, params: List[J], values: Any) -> str:
+    """Do the supplied values of BIT-MASKed parameters stay within their masks?"""
+    if not isinstance(values, dict):
+        return "no-mask"
+    res = "no-mask"
+    for p in params:
+        o = ref.dobjs.get(p.get("dop") or "")
+        v = values.get(p["name"])
+        if o is None or v is None:
+            continue
+        if o["t"] == "STRUCT":
+            sub = mask_class(ref, o["params"], v)
+            if sub == "value-outside-mask":
+                return sub
+            if sub != "no-mask":
+                res = sub
+        elif o["t"] == "DOP" and o["dct"].get("mask") is not None:
+            m = o["dct"]["mask"]
+            if isinstance(v, (bytes, bytearray)):
+                iv = int.from_bytes(v, "big")
+            elif isinstance(v, int) and not isinstance(v, bool):
+                iv = v
+            else:
+                return "value-outside-mask"
+            if iv < 0 or (iv & ~m):
+                return "value-outside-mask"
+            res = "value-within-mask"
+    return res
